@@ -626,20 +626,30 @@ func (ct *c37Tree) negDigestLen(p *Proof, set []uint64, sel int, all bool, st *c
 			q.Path[h] = append(crypto.GenericDigest{}, d...)
 			return q
 		}
-		// over-long: sibling || own node hash
-		switch {
-		case 2*size > crypto.MaxHashDigestSize:
+		// over-long: sibling||own and own||sibling (one of them is left||right, i.e. the whole input of the parent)
+		if 2*size > crypto.MaxHashDigestSize {
 			st.excl("over-long digest not representable for this hash (GenericDigest is at most 64 bytes)")
-		case owner&1 == 1:
-			st.excl("over-long path digest left of a right child (known finding path-digest-length)")
-		default:
+		} else {
 			sb := trueSib
 			if sb == nil {
 				sb = make([]byte, size)
 			}
-			st.negatives++
-			if err := ct.reject(fmt.Sprintf("path[%d] replaced by the %d-byte sibling||own digest, wrong element at %d", h, 2*size, victim), ct.root, emWrong, with(append(append([]byte{}, sb...), trueOwn...))); err != nil {
-				return err
+			for _, ownFirst := range []bool{false, true} {
+				d := append(append([]byte{}, sb...), trueOwn...)
+				name := "sibling||own"
+				if ownFirst {
+					d = append(append([]byte{}, trueOwn...), sb...)
+					name = "own||sibling"
+				}
+				if owner&1 == 1 && (!ownFirst || bytes.Equal(trueOwn, sb)) {
+					// the digest is the left operand and spells left||right: the known forgery
+					st.excl("over-long path digest left of a right child (known finding path-digest-length)")
+					continue
+				}
+				st.negatives++
+				if err := ct.reject(fmt.Sprintf("path[%d] replaced by the %d-byte %s digest, wrong element at %d", h, 2*size, name, victim), ct.root, emWrong, with(d)); err != nil {
+					return err
+				}
 			}
 		}
 		if trueSib == nil {
